@@ -119,4 +119,14 @@ theorem C07_wiring :
 theorem C07_skeleton_SetRedirectURL : Sso.Generated.skel_auth_SetRedirectURL =
     ["func{", "call:Join", "store:a.redirectURL", "return", "}", "return"] := by decide
 
+/-- Tie (T1), second wave: helpers, stores and second callers on this property's path (auth_OAuthStart, auth_OAuthCallback, auth_getOAuthCallback) — call/branch/store skeletons
+regenerated from the source on every run against the expectations frozen here. -/
+theorem C07_wiring2 :
+    Sso.Generated.skel_auth_OAuthStart =
+      ["call:GenerateKey", "call:Sprintf", "call:SetCSRF", "call:Query", "call:Get", "call:Parse", "call:String", "call:validRedirectURI", "if{", "call:ErrorResponse", "return", "}", "call:Query", "call:Get", "call:Parse", "call:String", "call:validRedirectURI", "if{", "call:ErrorResponse", "return", "}", "call:Query", "call:Get", "call:Query", "call:Get", "call:String", "call:validSignature", "if{", "call:ErrorResponse", "return", "}", "call:GetRedirectURI", "call:String", "call:Sprintf", "call:?", "call:EncodeToString", "call:GetSignInURL", "call:Redirect"] ∧
+    Sso.Generated.skel_auth_OAuthCallback =
+      ["call:getOAuthCallback", "typeswitch{", "case{", "break", "}", "case{", "call:ErrorResponse", "return", "}", "case{", "call:ErrorResponse", "return", "}", "}", "call:Redirect"] ∧
+    Sso.Generated.skel_auth_getOAuthCallback =
+      ["call:getRemoteAddr", "call:ParseForm", "if{", "call:Error", "return", "}", "call:Get", "if{", "return", "}", "call:Get", "if{", "return", "}", "call:redeemCode", "if{", "return", "}", "call:Get", "call:DecodeString", "if{", "return", "}", "call:string", "call:SplitN", "call:len", "if{", "return", "}", "call:GetCSRF", "if{", "return", "}", "call:ClearCSRF", "if{", "return", "}", "call:validRedirectURI", "if{", "return", "}", "call:RunValidators", "call:len", "call:len", "if{", "call:len", "call:make", "range{", "call:Error", "call:append", "}", "call:Join", "call:Sprintf", "return", "}", "call:SaveSession", "if{", "return", "}", "return"] := by decide
+
 end Sso.AuthN
